@@ -489,6 +489,26 @@ def r7_column_writes_keep_rows(ctx):
         raise AnalysisError("C14.R7", "anchor vanished: no column write in the readers")
 
 
+def r8_event_code_codec(ctx):
+    """An observed event of type k (1-based) is read as a True at position k - 1 of the individual's event flags, and written back (to_pandas)
+    as (position of the True) + 1; 0 means censored.  Reader and writer are inverse of each other - a writer that counts the observed events,
+    or forgets the + 1, turns every event code >= 2 into another one."""
+    ctx.rule("C14.R8", "event codes: reader sets position code - 1, writer returns position + 1 (0 = censored)", 2)
+    rd = ctx.ix.func(f"{PKG}.event_dataframe_data_reader", "EventDataframeDataReader._load_individuals_data", "C14.R8")
+    Lr = Canon(rd.node).lines(True, True)
+    br = unify(Lr, ["?flags = [False] * $0.nb_events", "if ?{code} != 0", "?flags[?{code} - 1] = True", "$1.add_event(?times, ?flags)"])
+    ctx.form("C14.R8", rd, rd.node, "; ".join(Lr), {"; ".join(Lr)} if br is not None and br["#0"] < br["#1"] < br["#2"] < br["#3"] else set(), ["[False] * $0.nb_events", " - 1] = True"],
+             "reader: flags[code - 1] = True when code != 0", "the reader no longer turns the event code k into a True at position k - 1 of the event flags", construct="event code read")
+    wr = ctx.ix.func(f"{PKG}.individual_data", "IndividualData._event_to_frame", "C14.R8")
+    Lw = Canon(wr.node).lines(True, True)
+    bw = unify(Lw, ["if $0.event_bool.sum() == 1", "?c = np.where($0.event_bool)[0][0] + 1", "if $0.event_bool.sum() == 0", "?c = 0", "?df = pd.DataFrame(data=[[$0.event_time[0], ?c]], ...)"])
+    ok = bw is not None and all(bw[f"#{i}"] < bw[f"#{i + 1}"] for i in range(4))
+    ctx.form("C14.R8", wr, wr.node, "; ".join(Lw), {"; ".join(Lw)} if ok else set(), ["np.where($0.event_bool)", " + 1"],
+             "writer: code = position of the observed event + 1, 0 when censored",
+             "the writer no longer returns (position of the observed event) + 1: the event code written by to_pandas is not the one that was read (every code >= 2 changes)",
+             forbidden=[r"= int\(np\.sum\(\$0\.event_bool\)\)", r"= \$0\.event_bool\.sum\(\)"], construct="event code written")
+
+
 # validators each concrete reader runs on every path of read() (computed from the code, confirmed by reading, frozen here)
 MUST_RUN = {
     "VisitDataframeDataReader": ["AbstractDataframeDataReader._check_ID", "AbstractDataframeDataReader._clean_index", "AbstractDataframeDataReader._clean_numeric_data",
@@ -580,6 +600,7 @@ def rules(ctx):
     r5_positional_access(ctx)
     r6_configured_event_count(ctx)
     r7_column_writes_keep_rows(ctx)
+    r8_event_code_codec(ctx)
     r4_validators_run(ctx)
     ctx.trust("pandas copy(deep=True), groupby(sort=False), round, is_unique semantics; bisect")
 
